@@ -30,7 +30,8 @@ def run(chk):
     total = 0
     for envpath, pdirs in path_variants:
         for form, name in forms.items():
-            for pattern in itertools.product([0, 1], repeat=4):
+            # 0 = absent, 1 = a table file, 2 = a DIRECTORY of that name (never a match: the search goes on)
+            for pattern in itertools.product([0, 1, 2] if (form == "plain" or chk.tier == "thorough") else [0, 1], repeat=4):
                 shutil.rmtree(work, ignore_errors=True)
                 for d in ("inc", "cwd", "p1", "p2", "abs"):
                     (work / d).mkdir(parents=True)
@@ -41,10 +42,12 @@ def run(chk):
                          work / pdirs[0] / rel, work / pdirs[1] / rel]
                 marker_of = {}
                 for k, (on, f) in enumerate(zip(pattern, slots)):
-                    if on:
+                    if on == 1:
                         f.parent.mkdir(parents=True, exist_ok=True)
                         f.write_text("letter a %s\n" % DOTS[k])
                         marker_of[os.path.realpath(f)] = 1 << k
+                    elif on == 2:
+                        f.mkdir(parents=True, exist_ok=True)
                 inc_main = W + "/inc/main.utb"
                 lst = W + "/inc/main0.utb," + name
                 env = {"LOUIS_TABLEPATH": envpath}
@@ -66,7 +69,7 @@ def run(chk):
                 for kind, cp, ca, ca2, mp in (("include", co[0], co[1], co[5], mo[0]), ("list", co[2], co[3], co[4], mo[1])):
                     total += 1
                     key = (envpath, form, pattern, kind)
-                    chk.count(key, nontrivial=sum(pattern) >= 1)
+                    chk.count(key, nontrivial=any(x == 1 for x in pattern))
                     chk.tally("%s/%s" % (form, kind))
                     # expected marker from the model's path
                     if mp == "P FAIL":
@@ -80,14 +83,14 @@ def run(chk):
                     c2 = dict(case, kind=kind, impl_paths=cp, model_paths=mp, impl_marker=ca, impl_marker_again=ca2, expected_marker=expA)
                     if ok:
                         chk.cov["traces_validated_against_impl"] += 1
-                        if sum(pattern) >= 2:
+                        if sum(1 for x in pattern if x) >= 2:
                             chk.sample(c2, cap=4)
                     else:
                         chk.violation("precedence-mismatch:%s/%s" % (form, kind),
                                       "resolution differs from Resolve.resolve_list: impl=%s / %s / %s model=%s expected marker %s" % (cp, ca, ca2, mp, expA), c2)
     shutil.rmtree(work, ignore_errors=True)
     chk.cov["exhaustive"] = True
-    chk.cov["rule"] = ("all 2^4 presence patterns of the marker table in {including file's directory, name as given, path dir 1, path dir 2} "
+    chk.cov["rule"] = ("all presence patterns (absent / file / for plain names also a directory of that name) of the marker table in {including file's directory, name as given, path dir 1, path dir 2} "
                        "x {plain, relative, absolute name} x {include, list member}; distinct = the tuple; non-trivial = at least one "
                        "copy present; each also re-queried without lou_free in another order")
     chk.cov["gen_status"] = gen
